@@ -324,6 +324,75 @@ def run_scenarios(scens, timeout=900, chunk=None):
     return out
 
 
+def kill_run(idx, rng_seed, tier):
+    """C06 process-kill mode: a child harness process executes a script and acknowledges every step on its stdout;
+    it is killed with SIGKILL after a random delay; the directory it left behind is then opened by a second harness
+    process that checks every acknowledged write (tools/gen.kill_script: one key per write)"""
+    import gen
+    import signal
+    rng = random.Random(rng_seed)
+    script = gen.kill_script(rng, tier)
+    d = os.path.join(scratch_dir(), f'kill{idx}')
+    shutil.rmtree(d, ignore_errors=True)
+    os.makedirs(d)
+    sp = os.path.join(d, 'script.txt')
+    open(sp, 'w').write('\n'.join(script) + '\n')
+    e = dict(os.environ)
+    e.update({'RUST_LOG': 'off'})
+    p = subprocess.Popen([HARNESS_BIN, 'run', sp, '--dir', d, '--keep'], stdout=subprocess.PIPE, stderr=subprocess.DEVNULL, env=e)
+    delay = rng.choice([0.004, 0.01, 0.02, 0.04, 0.08, 0.15, 0.3]) * rng.uniform(0.5, 1.5)
+    time.sleep(delay)
+    try:
+        p.send_signal(signal.SIGKILL)
+    except ProcessLookupError:
+        pass
+    out = p.stdout.read().decode('utf-8', 'replace')
+    p.wait()
+    lines = out.split('\n')
+    acked = lines[:-1] if not out.endswith('\n') else [l for l in lines if l != '']
+    if not out.endswith('\n') and lines:
+        acked = lines[:-1]
+    wd = [x for x in os.listdir(d) if x.startswith('pearl-verif-')]
+    ackfile = os.path.join(d, 'acks.txt')
+    n_ack = 0
+    with open(ackfile, 'w') as fh:
+        for l, o in zip(script, acked):
+            t = l.split()
+            if t[0] == 'w' and o.startswith('ok'):
+                fh.write(f'{t[1]} {t[4]} {t[5] if int(t[4]) > 0 else 0}\n')
+                n_ack += 1
+    if not wd:
+        return {'script': [script[0], 'killcheck (child was killed before the directory was created)'], 'impl': ['ok', 'sweep ok n=0 q=0 e8=0'],
+                'model': ['ok', 'sweep ok'], 'oracle': ['ok', 'skip'], 'crashed': False, 'acked': 0, 'killed_after_s': delay}
+    vs = [script[0] + f' from={os.path.join(d, wd[0])}', 'nomodel', 'states', f'killcheck {ackfile}', 'states', 'alive']
+    vp = os.path.join(d, 'verify.txt')
+    open(vp, 'w').write('\n'.join(vs) + '\n')
+    impl, errtail = [], ''
+    for attempt in range(2):
+        # a second attempt tells a reproducible start-up failure on this directory from a hiccup of the host
+        try:
+            pr = subprocess.run([HARNESS_BIN, 'run', vp, '--dir', os.path.join(d, f'v{attempt}')], stdout=subprocess.PIPE,
+                                stderr=subprocess.PIPE, timeout=300, env=e)
+            impl = pr.stdout.decode('utf-8', 'replace').splitlines()
+            errtail = f'rc={pr.returncode} ' + ' '.join(pr.stderr.decode('utf-8', 'replace').split())[-300:]
+        except subprocess.TimeoutExpired:
+            impl = []
+            errtail = 'timeout'
+        if impl:
+            break
+    if len(impl) < len(vs):
+        listing = []
+        try:
+            wdp = os.path.join(d, wd[0])
+            listing = [(f, os.path.getsize(os.path.join(wdp, f))) for f in sorted(os.listdir(wdp))]
+        except OSError:
+            pass
+        impl += [f'crash {errtail} files={listing}'] * (len(vs) - len(impl))
+    shutil.rmtree(d, ignore_errors=True)
+    return {'script': vs, 'impl': impl[:len(vs)], 'model': ['ok'] * len(vs), 'oracle': ['skip'] * len(vs), 'crashed': False, 'no_rerun': True,
+            'acked': n_ack, 'killed_after_s': round(delay, 4), 'steps_acked': len(acked), 'steps_total': len(script)}
+
+
 # ------------------------------------------------------------------------------------------------
 # judging
 
@@ -364,14 +433,14 @@ def judge(res, pdef):
             verdict = orc
             if nomodel and pdef.get('tolerate_err_after_damage') and impl.startswith(('err ', 'list')) and 'err ' in impl:
                 verdict = None     # after injected damage a read may fail; it must not return wrong data
-        if impl.startswith('panic') or impl == 'crash' or impl.startswith('skipped') or impl == 'err StepTimeout':
+        if impl.startswith('panic') or impl.startswith('crash') or impl.startswith('skipped') or impl == 'err StepTimeout':
             if pdef.get('crash_is_violation', True):
                 findings.append(Finding('violation', res, i, f'implementation {impl}'))
                 break
         if verdict:
             findings.append(Finding('violation', res, i, verdict))
             break
-        if c in ('dmgsweep', 'crashsweep', 'flipsweep', 'faultsweep', 'cancelsweep', 'toolsweep', 'concsweep') and impl.startswith('sweep ok'):
+        if c in ('dmgsweep', 'crashsweep', 'flipsweep', 'faultsweep', 'cancelsweep', 'toolsweep', 'concsweep', 'killcheck') and impl.startswith('sweep ok'):
             impl = 'sweep ok'      # the count of damaged copies is reported, not compared
         impl_only = c in pdef.get('impl_only_cmds', ()) or (c in pdef.get('impl_only_if_ct', ()) and ' rt=ct' in res['script'][0])
         if impl != model and not nomodel and not impl_only and not disagreed:
@@ -534,6 +603,10 @@ def main():
             for r in results:
                 stats['evaluations'] += 1
                 stats['steps'] += len(r['script'])
+                for o in r['impl']:
+                    m = re.match(r'sweep ok n=(\d+)', o)
+                    if m:
+                        stats['sweep_cases'] = stats.get('sweep_cases', 0) + int(m.group(1))
                 for l in r['script']:
                     c = cmd_of(l)
                     stats['ops'][c] = stats['ops'].get(c, 0) + 1
@@ -569,6 +642,19 @@ def main():
                 scens = corpus + [pdef['gen'](rng, tier) for _ in range(n)]
             samples = [s for s in scens[len(corpus):len(corpus) + 2]]
             results, findings = run_and_judge(scens)
+            if pdef.get('kill_runs'):
+                nk = pdef['kill_runs'][tier]
+                with cf.ThreadPoolExecutor(max_workers=JOBS) as ex:
+                    kres = list(ex.map(lambda i: kill_run(i, seed * 7001 + i, tier), range(nk)))
+                stats['kill_runs'] = nk
+                stats['kill_acked_writes'] = sum(r.get('acked', 0) for r in kres)
+                stats['kill_mid_script'] = sum(1 for r in kres if 0 < r.get('steps_acked', 0) < r.get('steps_total', 0))
+                for r in kres:
+                    stats['evaluations'] += 1
+                    stats['steps'] += len(r['script'])
+                    if r.get('acked', 0) > 0:
+                        stats['nontrivial'].add('kill:' + str(r.get('killed_after_s')) + ':' + str(r.get('acked')))
+                    findings += judge(r, pdef)
         elif not os.path.exists(MODEL_BIN):
             broken.append('model driver did not build')
 
@@ -586,7 +672,9 @@ def main():
             def still(lines, f=f):
                 r = run_scenarios([lines])[0]
                 return any(x.kind == 'violation' and sig_of(x) == sig_of(f) for x in judge(r, pdef))
-            if time.time() < shrink_deadline:
+            if f.scen.get('no_rerun'):
+                f2 = f            # e.g. a SIGKILL run: the directory the child left behind is unique
+            elif time.time() < shrink_deadline:
                 small = shrink(f.scen['script'], pdef, still)
                 r = run_scenarios([small])[0]
                 fs2 = [x for x in judge(r, pdef) if x.kind == 'violation']
@@ -661,6 +749,10 @@ def main():
                 'model_vs_impl_disagreements': stats['model_disagreements'],
                 'aux_disagreements': stats['aux_disagreements'],
                 'impl_vs_oracle_failures': stats['oracle_mismatches'],
+                'kill_runs': stats.get('kill_runs', 0),
+                'kill_acknowledged_writes_checked': stats.get('kill_acked_writes', 0),
+                'kill_runs_killed_mid_script': stats.get('kill_mid_script', 0),
+                'sweep_cases': stats.get('sweep_cases', 0),
                 'broken_obligations': broken,
                 'known_findings_reproduced': [k['id'] for k in known_hits],
                 'traces_validated_against_impl': stats['evaluations'],
